@@ -91,8 +91,12 @@ def file_offsets(data):
     return sorted({struct.unpack(">i", data[pt + 6 * i: pt + 6 * i + 4])[0] for i in range(typ)})
 
 
-def gen_file_session(rng, rel, max_tr=40, nrandom=15, mk=True):
+def gen_file_session(rng, rel, max_tr=40, nrandom=15, mk=True, by_name=False):
     ev, data = gens.corpus_event(rel)
+    if by_name:
+        # the same file reached the way a user reaches it: as a TZ value resolved against a zoneinfo directory (the references get
+        # TZ=:/path). Names such as EST5EDT or GMT0 look like descriptions; the file still wins.
+        ev = {"op": "resolve", "a": {"s": B(rel), "dirs": [B("/usr/share/zoneinfo")], "vfs": [[B("/usr/share/zoneinfo/" + rel), list(data)]], "via": "posix"}, "g": 1}
     path = os.path.join(gens.CORPUS, rel)
     is_right = rel.startswith("right/")
     times, leaps = gens.parse_tzif_times(data)
